@@ -235,7 +235,7 @@ func (d *c18Dom) keyCase(c *Ctx, alt *c18Dom, t c18Triple, clean bool) {
 // step the combination must open to the combined message and witness.
 func (d *c18Dom) homSequence(c *Ctx, r *Rng, pool []c18Triple, steps int) {
 	fail := func(kind string, err error) {
-		c.Violation(fmt.Sprintf("%s: homomorphic %s failed: %s", d.head("step"), kind, errClass(err)))
+		c.Violation(fmt.Sprintf("%s: homomorphic %s failed: %s", d.head("step"), kind, c18errClass(err)))
 	}
 	for it := 0; it < steps; it++ {
 		x := pool[r.IntN(len(pool))]
@@ -382,7 +382,7 @@ func (d *c18Dom) homSequence(c *Ctx, r *Rng, pool []c18Triple, steps int) {
 	d.openLine(c, pool[len(pool)-1], "combined", true, true)
 }
 
-func errClass(err error) string {
+func c18errClass(err error) string {
 	if err == nil {
 		return "nil"
 	}
